@@ -87,3 +87,13 @@ func init() {
 		mutant{Name: "compile-time-panic-rethrown", Prop: "C12", File: "interp/program.go", Old: "\t\t\tprog, err = nil, Panic{Value: r, Callers: pc[:n], Stack: debug.Stack()}\n\t\t}\n\t}()\n\n\t// Convert AST.\n", New: "\t\t\tprog, err = nil, Panic{Value: r, Callers: pc[:n], Stack: debug.Stack()}\n\t\t\tpanic(r)\n\t\t}\n\t}()\n\n\t// Convert AST.\n", Rule: "R12.14", Key: "entry/Eval->cfg"},
 	)
 }
+
+func init() {
+	addMutants(
+		// D76-D79 reverted
+		mutant{Name: "failed-assertion-keeps-the-previous-result", Prop: "C05", File: "interp/run.go", Old: "\tif !ok && result != nil {\n\t\tv := result(f)\n\t\tv.Set(reflect.Zero(v.Type()))\n\t}\n", New: "\t_ = result\n", Rule: "R05.10", Key: "typeAssert/closure#1/failed-assertion-zeroes-the-result"},
+		mutant{Name: "empty-loop-body-ends-the-function", Prop: "C01", File: "interp/cfg.go", Old: "\t\t\t\tif l.kind == identExpr && l.tnext == nil && n.anc != nil && (hasForInit(n.anc) || n.anc.kind == rangeStmt) {\n\t\t\t\t\t// The body of the loop is empty: the nodes of its per-iteration loop\n\t\t\t\t\t// variables, which are executed, lead to the body itself.\n\t\t\t\t\tl.tnext = n\n\t\t\t\t}\n", New: "", Rule: "R01.27", Key: "cfg/empty-loop-body/last-placeholder-has-a-successor"},
+		mutant{Name: "logical-operators-not-type-checked", Prop: "C12", File: "interp/cfg.go", Old: "\t\t\tif err = check.logicalExpr(n); err != nil {\n\t\t\t\tbreak\n\t\t\t}\n\t\t\tn.start = n.child[0].start\n\t\t\tn.child[0].tnext = n.child[1].start\n", New: "\t\t\tn.start = n.child[0].start\n\t\t\tn.child[0].tnext = n.child[1].start\n", Rule: "R12.15", Key: "cfg/case:landExpr/operands-type-checked"},
+		mutant{Name: "send-direction-not-checked", Prop: "C12", File: "interp/cfg.go", Old: "\t\t\tif isRecvChan(n.child[0].typ) {\n\t\t\t\terr = n.cfgErrorf(\"invalid operation: cannot send to receive-only channel %s\", n.child[0].typ.id())\n\t\t\t\tbreak\n\t\t\t}\n", New: "", Rule: "R12.16", Key: "cfg/case:sendStmt/channel-direction-checked"},
+	)
+}
